@@ -35,10 +35,18 @@ def programs(seed, tier):
 def flags(classes):
     """Command-line options for a set of output classes; `h` (and several .c files) come
     from splitting the generated C with -Csmax."""
-    f = [worlds.OUT_FLAG[c] for c in classes if c != "h"]
+    f = [worlds.OUT_FLAG[c] for c in classes if c not in ("h", "R")]
     if "h" in classes:
         f.append("-Csmax=5")
+    if "R" in classes:		# pseudo class: outputs go to an (existing) directory given with -R
+        f = ["-R", "out"] + f
     return f
+
+
+def mk_outdir(classes):
+    if "R" not in classes:
+        return None
+    return lambda sb: os.makedirs(os.path.join(sb, "out"), exist_ok=True)
 
 
 def _files(name, text):
@@ -51,7 +59,7 @@ def _files(name, text):
 def reference(binfo, scratch, name, text, classes):
     w = scratch.new()
     files, srcs = _files(name, text)
-    r = worlds.compile_world(binfo, w, files, flags(classes), srcs, cpu=60)
+    r = worlds.compile_world(binfo, w, files, flags(classes), srcs, cpu=60, pre=mk_outdir(classes))
     vsim.cleanup_world(w)
     return r
 
@@ -68,6 +76,8 @@ def gen_plans(rng, ref, classes, tier):
             writes[ev[1]] = writes.get(ev[1], 0) + 1
     plans = [[]]	# the fault-free plan
     for c in classes:
+        if c == "R":
+            continue
         S = sizes.get(c, 0)
         if S <= 0:
             continue
@@ -125,12 +135,14 @@ def plan_lines(plan):
 
 def run_plan(binfo, scratch, name, text, classes, plan, ref):
     w = scratch.new()
-    pre = None
+    pre = mk_outdir(classes)
     dirs = [ev["c"] for ev in plan if ev["k"] == "dirtarget"]
     if dirs:
         targets = [rel for rel in ref.files if worlds.cls_of(rel) in dirs]
 
         def pre(sb):
+            if "R" in classes:
+                os.makedirs(os.path.join(sb, "out"), exist_ok=True)
             for rel in targets:
                 os.makedirs(os.path.join(sb, rel), exist_ok=True)
     files, srcs = _files(name, text)
@@ -217,6 +229,12 @@ def main(argv):
             got = set(worlds.cls_of(k) for k in r2.files)
             if r2.rc == 0 and "h" in got:
                 progs.append((name, text, r2, split))
+        # configuration with an output directory (-R out): the same faults hit files below it
+        outcl = ["R", "ao", "fm", "c", "java"]
+        for (name, text, ref, _) in list(progs[:1 if tier == "quick" else 6]):
+            r4 = reference(binfo, scratch, name, text, outcl)
+            if r4.rc == 0 and any(k.startswith("out/") for k in r4.files):
+                progs.append((name, text, r4, outcl))
         # third configuration: two files in one invocation, the fault aimed at the SECOND file's output
         multi_cl = ["ao", "fm", "c", "lsp"]
         singles = [p for p in progs if p[3] is classes]
